@@ -360,7 +360,10 @@ func protoKey(r *Rng, ci int, pool int) string {
 	if ci == 0 && r.Bool(1, 10) {
 		// keys that look like protocol words (only on one connection: the reference keeps one
 		// key space per connection)
-		return []string{"noreply", "noreply", "0", "1", "-1", "get", "END", "STORED", "cas"}[r.Intn(9)]
+		// ... and keys with bytes that are white space to Unicode but not to the protocol (the only
+		// separator is the ASCII blank): NBSP, ideographic space, NEL, line separator
+		return []string{"noreply", "noreply", "0", "1", "-1", "get", "END", "STORED", "cas",
+			"a\u00a0b", "\u3000k", "k\u0085", "x\u2028y\u00a0"}[r.Intn(13)]
 	}
 	return fmt.Sprintf("c%dk%d", ci, r.Intn(pool))
 }
@@ -369,6 +372,22 @@ func genProtoValue(r *Rng, max int) []byte {
 	n := r.Pick(0, 1, 5, 10, 30, 200, 230, 300, 1000, 5000, 10241, max)
 	if n > max {
 		n = max
+	}
+	if max > 12000 && r.Bool(1, 10) {
+		// a compressible head (the server probes the first 10 KiB) and an incompressible tail
+		n = r.Pick(10241+300, 12000, 20000, 60000)
+		if n > max {
+			n = max
+		}
+		b := make([]byte, n)
+		for i := range b {
+			if i < 10240 {
+				b[i] = "ab"[i%2]
+			} else {
+				b[i] = byte(r.U64())
+			}
+		}
+		return b
 	}
 	b := make([]byte, n)
 	alphabet := []byte("abc \r\n\x00\xffEND\r\nSTORED get set 0123")
